@@ -29,7 +29,7 @@ EXPLANATION = (
     "dialect differences between python re/numpy and rust."
 )
 LEVEL_RULE = "one obligation per (check, option assignment, backend) / signature / twin effect site"
-FLOORS = {"R1": 40, "R2": 1, "R3": 40, "R4": 10, "R5": 4, "R6": 2, "R7": 1, "R8": 2}
+FLOORS = {"R1": 40, "R2": 1, "R3": 40, "R4": 10, "R5": 4, "R6": 2, "R7": 1, "R8": 2, "R9": 2}
 
 PD = "pandera/backends/pandas/builtin_checks.py"
 PL = "pandera/backends/polars/builtin_checks.py"
@@ -530,6 +530,56 @@ def r8_add_missing_columns_keeps_frame(ctx):
                    "(pandas keeps both) - the parsed tables differ between the backends", f0.loc(node))
 
 
+def r9_polars_default_is_literal(ctx):
+    """In a polars expression context (`with_columns`, `fill_null`, `fill_nan`) a plain `str` is a *column reference*.
+    A declared default therefore reaches such a call only as `pl.lit(default)` (or under an `isinstance(default, pl.Expr)`
+    test): a bare string default is otherwise looked up as a column - ColumnNotFoundError for 'unknown', and a silent copy
+    of another column when the default happens to be a column name - where pandas fills the literal."""
+    ix = ctx.ix
+    n = 0
+    for m in ix.modules.values():
+        if not m.path.startswith("pandera/backends/polars/"):
+            continue
+        for f in m.all_functions:
+            if "default" not in ast.dump(f.node):
+                continue
+            ex = Expander(f.node)
+            for c in calls_in(f.node):
+                if callee_last(c) not in ("with_columns", "fill_null", "fill_nan") or not isinstance(c.func, ast.Attribute):
+                    continue
+                exprs = list(c.args)
+                for k in c.keywords:
+                    exprs.append(k.value)
+                bare = []
+                for e in exprs:
+                    for d in ex.closure(e):
+                        lit_spans = [x for x in ast.walk(d) if isinstance(x, ast.Call) and callee_last(x) == "lit"]
+                        inside_lit = {id(y) for x in lit_spans for y in ast.walk(x)}
+                        for x in ast.walk(d):
+                            if isinstance(x, ast.Attribute) and x.attr == "default" and isinstance(x.ctx, ast.Load) and id(x) not in inside_lit:
+                                # `default_value = schema.default` under `isinstance(schema.default, pl.Expr)` is an expression already
+                                par = getattr(x, "_parent", None)
+                                guarded = False
+                                while par is not None and par is not f.node:
+                                    if isinstance(par, (ast.If, ast.IfExp)) and any(isinstance(t, ast.Call) and callee_last(t) == "isinstance" and "Expr" in txt(t)
+                                                                                    for t in ast.walk(par.test)):
+                                        guarded = True
+                                    par = getattr(par, "_parent", None)
+                                if not guarded:
+                                    bare.append(x)
+                if not exprs:
+                    continue
+                if any("default" in ast.dump(d) for e in exprs for d in ex.closure(e)):
+                    n += 1
+                    ctx.ob("R9", f, f"{f.short}: the default reaches `{callee_last(c)}` as a literal", not bare,
+                           "wrapped in pl.lit(...) / tested to be an expression" if not bare else
+                           f"`{txt(bare[0])}` is passed to `{txt(c)[:60]}` bare: polars reads a str there as a column name - Column(str, default='unknown') "
+                           "raises ColumnNotFoundError, default='city' silently copies the column `city`; pandas fills the literal", f.loc(c))
+    ctx.stats["polars_default_sinks"] = n
+    if n < 2:
+        raise AnalysisError(f"polars backends: expected at least 2 places where a default reaches an expression context, found {n}")
+
+
 def r1_pyspark(ctx):
     """thorough: pyspark forms where expressible (best effort, never a VIOLATION source on unknown forms)."""
     ix = ctx.ix
@@ -561,6 +611,7 @@ def run(ctx):
     r6_no_truthiness_of_default(ctx)
     r7_polars_default_fills_nulls(ctx)
     r8_add_missing_columns_keeps_frame(ctx)
+    r9_polars_default_is_literal(ctx)
     if ctx.tier == "thorough":
         r1_pyspark(ctx)
     ctx.assume("pandas operators/str accessors and polars expression methods have their documented element-wise meaning")
